@@ -18,6 +18,7 @@ WORLD = {
     'cwd': '/',
 }
 TOP = ['a', 'b', 'c', 'k', 'x', 'd', 'e']
+P_OPS = 0.15    # share of list values written as !extend / !append
 GOOD_ARGS = {  # key sets that bind successfully
     'rec.f': [[], [0], [0, 1], ['p'], [0, 'p'], [0, 1, 2, 'q']],
     'rec.g': [[], [0], ['p', 'q'], [0, 1]],
@@ -61,7 +62,16 @@ def gen_val(rng, depth, p_unsafe, p_bad, dyn=True):
     if depth <= 0 or r < 0.72:
         return S(rng.choice([0, 1, 12, 'p', 'q', True, None, 1.5]), kw=kw)
     if r < 0.84:
-        return Q([gen_val(rng, depth - 1, p_unsafe, p_bad) for _ in range(rng.choice([0, 1, 2, 3]))], kw=kw)
+        items = [gen_val(rng, depth - 1, p_unsafe, p_bad) for _ in range(rng.choice([0, 1, 2, 3]))]
+        if dyn and rng.random() < P_OPS:
+            # premerge operators holding dynamic nodes, with their own flags (seeded change S4-C07: an operator that turns
+            # into a plain list must keep its marks); !extend needs no destination, !append fails without one
+            if not items or rng.random() < 0.5:
+                items = items + [gen_val(rng, 0, p_unsafe, p_bad), M([], tag={'k': rng.choice(['call', 'bind']), 'f': 'rec.f'})][rng.randrange(2):]
+            if not kw and rng.random() < 0.4:
+                kw = {'safe': False}
+            return Q(items, tag=rng.choice(['extend', 'extend', 'append']), kw=kw)
+        return Q(items, kw=kw)
     keys = rng.sample(['a', 'b', 'c', 'z', 'y'], rng.choice([0, 1, 2, 3]))
     return M([(k, gen_val(rng, depth - 1, p_unsafe, p_bad)) for k in keys], kw=kw)
 
